@@ -12,6 +12,9 @@
 From Coq Require Import List NArith ZArith.
 From NV Require Import CramIdx.Crai CramIdx.CraiProofs CramIdx.Multi CramIdx.MultiProofs CramIdx.Transport CramIdx.TransportProofs CramIdx.Bytes CramIdx.BytesProofs.
 From NV Require Import Io.Source Io.ReadExact Io.ReadExactProofs Async.ReadExact CramIdx.AsyncQuery CramIdx.AsyncQueryProofs.
+From NV Require Import CramIdx.ContainerLink CramIdx.BytesQueryProofs.
+From NV Require Bgzf.Frame Bgzf.Inflate.
+From NV Require Import CramIdx.Gz CramIdx.GzProofs.
 From NV Require Import Trunc.Stream Trunc.Cram Bgzf.Crc32.
 Import ListNotations.
 Open Scope N_scope.
@@ -471,24 +474,171 @@ Theorem c19_async_query_equals_scan :
 Proof. exact async_query_equals_scan. Qed.
 Print Assumptions c19_async_query_equals_scan.
 
-(* stated, not proved: the same for query_unmapped (needs the container loop of the records
-   stream followed through the layout), and the reader's container program = C13's framing
-   parser (which would turn [cont_read] into BytesProofs.cont_at, a consequence of
-   [mfile_of_bytes] succeeding) *)
-Definition c19_async_query_unmapped_equals_scan_full_statement : Prop :=
-  forall crc f file pos es codes seeks chunk p0,
-    mfile_ok pos f -> index_m pos f = Ok es -> Forall (cont_read crc file) f ->
-    async_query_unmapped crc f file codes seeks chunk p0 es
-    = AOk (filter unplaced_flagged (flat_map m_recs f)).
+(* ---- no framing premise: the layout is read from the same bytes -------------------------- *)
 
-Definition c19_container_program_is_framing_parser_full_statement : Prop :=
-  forall crc d,
-    run_pure (p_read_container crc false) d
+(* The reader's container program IS C13's framing parser (NV.Trunc.Cram.cram_parse_container =
+   container/header.rs read_header + container.rs read_container as a function of the bytes that
+   are left): on EVERY byte string and for both granularities of the ITF8/LTF8 reads it returns
+   the parser's header, body and EOF flag, leaves the parser's rest, fails with the parser's
+   error kind, and the header length it reports is what the parser consumed before the body. *)
+Theorem c19_container_program_is_framing_parser :
+  forall crc g d,
+    run_pure (p_read_container crc g) d
     = match cram_parse_container crc d with
       | POk (h, body, eof) r =>
           POk (h, N.of_nat (length d - length r) - N.of_nat (length body), body, eof) r
       | PErr e => PErr e
       end.
+Proof. exact container_program_is_framing_parser_g. Qed.
+Print Assumptions c19_container_program_is_framing_parser.
+
+(* [mfile_of_bytes crc file recs = BOk (p0, f)]: after the file definition and the header
+   container, C13's parser frames container after container up to the EOF container and every
+   landmark range of every body starts with a CRC-verified slice header block ([recs] only says
+   which records the slices hold).  Then the layout [f] is laid out back to back from [p0], its
+   landmarks chain, and the reader's program frames every container of it: the premises
+   [mlayout_ok] and [cont_read] of the byte-level query theorems hold. *)
+Theorem c19_layout_of_bytes_is_framed :
+  forall crc file recs p0 f,
+    mfile_of_bytes crc file recs = BOk (p0, f) ->
+    mlayout_ok p0 f /\ Forall (cont_read crc file) f /\
+    index_of_bytes crc file recs = match index_m p0 f with Ok es => BOk es | _ => BErr InvalidData end.
+Proof.
+  intros crc file recs p0 f H. split; [exact (mfile_layout crc file recs p0 f H)|].
+  split; [exact (mfile_cont_read crc file recs p0 f H)|exact (index_of_bytes_is_index_m crc file recs p0 f H)].
+Qed.
+Print Assumptions c19_layout_of_bytes_is_framed.
+
+(* so the region query and query_unmapped over the bytes, with the index of those bytes, ARE the
+   layout-level query_m / query_unmapped (error kinds included), whatever the records are *)
+Theorem c19_bytes_query_is_layout_query_of_bytes :
+  forall crc file recs p0 f es r lo hi,
+    mfile_of_bytes crc file recs = BOk (p0, f) -> index_m p0 f = Ok es ->
+    query_p crc f file es r lo hi = lift_q (query_m selected es f r lo hi).
+Proof. intros crc file recs p0 f es r lo hi H. exact (bytes_query_is_layout_query crc file recs p0 f H es r lo hi). Qed.
+Print Assumptions c19_bytes_query_is_layout_query_of_bytes.
+
+Theorem c19_bytes_query_unmapped_is_layout_query_unmapped :
+  forall crc file recs p0 f es,
+    mfile_of_bytes crc file recs = BOk (p0, f) -> index_m p0 f = Ok es ->
+    query_unmapped_p crc f file es = lift_q (query_unmapped es f).
+Proof. intros crc file recs p0 f es H. exact (bytes_query_unmapped_is_layout_query_unmapped crc file recs p0 f H es). Qed.
+Print Assumptions c19_bytes_query_unmapped_is_layout_query_unmapped.
+
+(* With well-formed records in the slices ([slice_ok]: non-empty, slice header context = the
+   context of the records, start <= end; record decoding is C07's): the ASYNC reader's region
+   query under every read poll script, every AsyncSeek Pending script and every read_to_end
+   request size, and the SYNC reader's under every delivery script, return exactly the records a
+   scan keeps -- the only hypothesis about the file is that [mfile_of_bytes] reads its layout. *)
+Theorem c19_async_query_equals_scan_of_bytes :
+  forall crc file recs p0 f,
+    mfile_of_bytes crc file recs = BOk (p0, f) ->
+    Forall (fun c => Forall slice_ok (m_slices c)) f ->
+    forall es codes seeks chunk q0 nrefs r lo hi,
+    index_m p0 f = Ok es -> (r <? nrefs) = true ->
+    async_queries crc f file codes seeks chunk q0 nrefs es [(r, lo, hi)]
+    = [AOk (scan_m f r (fst (region_bounds lo hi)) (snd (region_bounds lo hi)))].
+Proof. exact async_query_equals_scan_of_bytes. Qed.
+Print Assumptions c19_async_query_equals_scan_of_bytes.
+
+Theorem c19_sync_query_equals_scan_of_bytes :
+  forall crc file recs p0 f,
+    mfile_of_bytes crc file recs = BOk (p0, f) ->
+    Forall (fun c => Forall slice_ok (m_slices c)) f ->
+    forall es script q0 nrefs r lo hi,
+    index_m p0 f = Ok es -> (r <? nrefs) = true ->
+    sync_queries crc f file script q0 nrefs es [(r, lo, hi)]
+    = [AOk (scan_m f r (fst (region_bounds lo hi)) (snd (region_bounds lo hi)))].
+Proof. exact sync_query_equals_scan_of_bytes. Qed.
+Print Assumptions c19_sync_query_equals_scan_of_bytes.
+
+(* query_unmapped: the records stream is followed container after container through the bytes
+   (each container's rest is the next container's position, the last one is followed by the EOF
+   container) and returns exactly the unplaced records that carry the UNMAPPED flag, in file
+   order, each once.  (The form stated in the previous round, with [cont_read] as the premise,
+   was too weak: [cont_read] says nothing about what follows the last container; reading the
+   layout from the bytes does.) *)
+Theorem c19_async_query_unmapped_equals_scan :
+  forall crc file recs p0 f,
+    mfile_of_bytes crc file recs = BOk (p0, f) ->
+    Forall (fun c => Forall slice_ok (m_slices c)) f ->
+    forall es codes seeks chunk q0,
+    index_m p0 f = Ok es ->
+    async_query_unmapped crc f file codes seeks chunk q0 es
+    = AOk (filter unplaced_flagged (flat_map m_recs f)).
+Proof. exact async_query_unmapped_equals_scan_of_bytes. Qed.
+Print Assumptions c19_async_query_unmapped_equals_scan.
+
+Theorem c19_sync_query_unmapped_equals_scan :
+  forall crc file recs p0 f,
+    mfile_of_bytes crc file recs = BOk (p0, f) ->
+    Forall (fun c => Forall slice_ok (m_slices c)) f ->
+    forall es script q0,
+    index_m p0 f = Ok es ->
+    sync_query_unmapped crc f file script q0 es
+    = AOk (filter unplaced_flagged (flat_map m_recs f)).
+Proof. exact sync_query_unmapped_equals_scan_of_bytes. Qed.
+Print Assumptions c19_sync_query_unmapped_equals_scan.
+
+(* ---- the gzip layer of the .crai file (NV.CramIdx.Gz over C01's inflater and CRC-32) --------- *)
+
+(* crai::fs::write / crai::io::Writer put the text inside one gzip member: the 10-byte header,
+   the compressor's DEFLATE stream, CRC32 and ISIZE; crai::fs::read / crai::io::Reader parse the
+   header (flate2's GzHeaderParser), inflate, compare CRC32 and ISIZE, and read the text.  With the
+   STORED-BLOCK compressor (C01's deflate_stored) the round trip holds with no premise about the
+   compressor: every index whose entries fit the text format is read back as itself, whatever
+   follows the member in the file. *)
+Theorem c19_crai_file_roundtrip_stored :
+  forall es extra,
+    Forall entry_fits es -> NV.Bgzf.Frame.lenN (crai_text es) <= gz_limit ->
+    read_crai_gz (write_crai_gz_stored es ++ extra) = GOk es.
+Proof. exact crai_gz_stored_roundtrip. Qed.
+Print Assumptions c19_crai_file_roundtrip_stored.
+
+(* For ANY compressor whose stream C01's inflater inverts ([inflatable comp]: the premise under
+   which flate2's compressor -- zlib-rs at level 6 in the implementation -- enters; checked on
+   every compared file, where the Coq inflater must reproduce the text): the same round trip *)
+Theorem c19_crai_file_roundtrip :
+  forall comp, inflatable comp ->
+  forall es extra,
+    Forall entry_fits es -> NV.Bgzf.Frame.lenN (crai_text es) <= gz_limit ->
+    read_crai_gz (write_crai_gz comp es ++ extra) = GOk es.
+Proof. exact crai_gz_roundtrip. Qed.
+Print Assumptions c19_crai_file_roundtrip.
+
+Theorem c19_stored_compressor_is_inflatable : inflatable NV.Bgzf.Inflate.deflate_stored.
+Proof. exact deflate_stored_inflatable. Qed.
+Print Assumptions c19_stored_compressor_is_inflatable.
+
+(* hence a region query / query_unmapped through a .crai FILE (gzip layer included) returns what
+   the query through the index in memory returns *)
+Theorem c19_query_via_crai_file_gz :
+  forall comp, inflatable comp ->
+  forall pos f es nrefs r lo hi,
+    mfile_ok pos f -> Forall mcont_fits f -> index_m pos f = Ok es -> NV.Bgzf.Frame.lenN (crai_text es) <= gz_limit ->
+    query_via_gz comp nrefs es f r lo hi = GOk (query_region_m nrefs es f r lo hi).
+Proof. exact query_via_gz_same. Qed.
+Print Assumptions c19_query_via_crai_file_gz.
+
+Theorem c19_query_unmapped_via_crai_file_gz :
+  forall comp, inflatable comp ->
+  forall pos f es,
+    mfile_ok pos f -> Forall mcont_fits f -> index_m pos f = Ok es -> NV.Bgzf.Frame.lenN (crai_text es) <= gz_limit ->
+    query_unmapped_via_gz comp es f = GOk (query_unmapped es f).
+Proof. exact query_unmapped_via_gz_same. Qed.
+Print Assumptions c19_query_unmapped_via_crai_file_gz.
+
+(* what the reader accepts was checked: the text it returns is what the inflater produced from
+   the bytes after the header, and the 8 bytes after the DEFLATE stream are its CRC-32 and its
+   length mod 2^32 *)
+Theorem c19_gunzip_accepts_only_checked :
+  forall bs text,
+    gunzip bs = GOk text ->
+    exists body rest t r',
+      gz_header bs = GOk body /\ NV.Bgzf.Inflate.inflate_raw gz_limit body = Some (text, rest) /\ need 8 rest = Some (t, r') /\
+      NV.Base.LE.le_dec (firstn 4 t) = crc32 text /\ NV.Base.LE.le_dec (skipn 4 t) = NV.Bgzf.Frame.lenN text mod two32.
+Proof. exact gunzip_accepts_only_checked. Qed.
+Print Assumptions c19_gunzip_accepts_only_checked.
 
 (* ---- non-vacuity ------------------------------------------------------------------------- *)
 
@@ -625,4 +775,24 @@ Example c19_example_async_query :
     [0; 2; 0; 0; 8; 1; 4; 0; 3]%nat [true; false; true; true] 5 155 1
     [mkentry (Some 0) (Some 20) 1 155 187 511] [(0, Some 20, Some 20); (0, Some 21, None); (1, None, None)]
   = [AOk [mkrec 0 (Some 0) 20 20 false]; AOk []; AInvalidInput].
+Proof. vm_compute. reflexivity. Qed.
+
+(* the hypotheses of the ..._of_bytes theorems are satisfiable: the layout of the noodles-written
+   file above is read from its bytes and its slice is well-formed *)
+Definition c19_example_bytes_layout_read : list mcont :=
+  [mkmcont 155 18 698 [wslice 187 511 [mkrec 0 (Some 0) 20 20 false]]].
+
+Example c19_example_mfile_of_bytes :
+  mfile_of_bytes crc32 c19_example_bytes c19_example_bytes_recs = BOk (155, c19_example_bytes_layout_read)
+  /\ Forall (fun c => Forall slice_ok (m_slices c)) c19_example_bytes_layout_read
+  /\ index_m 155 c19_example_bytes_layout_read = Ok [mkentry (Some 0) (Some 20) 1 155 187 511].
+Proof.
+  split; [vm_compute; reflexivity|]. split; [|vm_compute; reflexivity].
+  repeat constructor; cbn; try discriminate; unfold usize_max; try reflexivity; intros H; discriminate H.
+Qed.
+
+(* the stored-block .crai of the example index is read back, also with bytes after the member *)
+Example c19_example_crai_gz :
+  read_crai_gz (write_crai_gz_stored [mkentry (Some 0) (Some 20) 1 155 187 511; mkentry None None 0 900 170 230] ++ [1; 2; 3])
+  = GOk [mkentry (Some 0) (Some 20) 1 155 187 511; mkentry None None 0 900 170 230].
 Proof. vm_compute. reflexivity. Qed.
